@@ -1,3 +1,5 @@
 import Sqljson.Audit
 import Sqljson.Props.C14
+import Sqljson.Props.C14b
 #audit_ns C14 Sqljson.C14
+#audit_ns C14 Sqljson.C14b
